@@ -224,6 +224,31 @@ func c09Run(c *core.Ctx) *core.Result {
 		return r
 	}
 	c09Compare(r, "FS.Walk(/)", snap.Entries, got2, "")
+
+	// 2b. the root named through a symlink, spelled the ways a caller may
+	// spell a directory: the walk is the walk of the directory
+	if core.NewRand(core.Mix(c.Seed, "C09-root-spelling", c.Index)).P(1, 5) {
+		link := filepath.Join(c.Dir, "srclink")
+		os.Remove(link)
+		if os.Symlink("src", link) == nil {
+			for _, sp := range []string{link, link + "/", link + "/.", src + "/", src + "/."} {
+				rfs, err := fsutil.NewFS(sp)
+				if err != nil {
+					r.Violate("walk-error", "NewFS(%q) failed: %v", sp, err)
+					continue
+				}
+				gotS, err := walkStats(rfs, "")
+				if err != nil {
+					r.Violate("walk-error", "NewFS(%q).Walk failed: %v", sp, err)
+					continue
+				}
+				r.Count("root_spellings_walked", 1)
+				if len(gotS) != len(got2) {
+					r.Violate("walk-root-spelling", "NewFS(%q).Walk reports %d entries, NewFS(%q).Walk reports %d", sp, len(gotS), src, len(got2))
+				}
+			}
+		}
+	}
 	// the wrapper Send puts around every FS must not change an unfiltered view
 	if got2b, err := walkStats(fsutil.WithHardlinkReset(fs), "/"); err != nil {
 		r.Violate("walk-error", "walk through WithHardlinkReset failed: %v", err)
@@ -403,6 +428,26 @@ func c09Run(c *core.Ctx) *core.Result {
 				c09Compare(r, fmt.Sprintf("SubDirFS.Walk(%q)", nm+"/"+tg.Path), exp5, got5, nm)
 			}
 			r.Count("subdirfs_subtarget_walks", 1)
+		}
+		// 6. the same targets spelled the ways the other FS implementations
+		// accept: the walk reports the same paths
+		pathsOf := func(target string) ([]string, error) {
+			sts, err := walkStats(sfs, target)
+			var ps []string
+			for _, st := range sts {
+				ps = append(ps, st.Path)
+			}
+			return ps, err
+		}
+		if len(r.Viols) == 0 {
+			for _, pair := range [][2]string{{"", "."}, {"", "/"}, {nm, "/" + nm}, {nm, "./" + nm}, {nm, nm + "/."}, {nm + "/" + tg.Path, "/" + nm + "/" + tg.Path}, {nm + "/" + tg.Path, "./" + nm + "/./" + tg.Path}} {
+				want, err1 := pathsOf(pair[0])
+				got, err2 := pathsOf(pair[1])
+				r.Count("subdirfs_target_spellings_compared", 1)
+				if (err1 == nil) != (err2 == nil) || !eqStrings(want, got) {
+					r.Violate("walk-target-spelling", "SubDirFS.Walk(%q) reports %d entries %q (err=%v), SubDirFS.Walk(%q) reports %d entries %q (err=%v)", pair[1], len(got), trunc(got, 6), err2, pair[0], len(want), trunc(want, 6), err1)
+				}
+			}
 		}
 	}
 	return r
